@@ -290,6 +290,7 @@ class DriverBase:
         self._cid = itertools.count(1)
         self._aid = itertools.count(1)
         self.raise_in_disconnect = False
+        self.suspend_in_disconnect = 0    # seconds of virtual time the disconnect handler waits before it returns (oracle-only runs)
 
     def _on_connect(self, sid, environ):
         self.events.append((sid, 'connect', None))
@@ -426,6 +427,8 @@ class ThreadedDriver(DriverBase):
 
     def _on_disconnect(self, sid, reason):
         self._on_disconnect_common(sid, reason)
+        if self.suspend_in_disconnect:
+            self.srv.sleep(self.suspend_in_disconnect)
 
     @property
     def now(self):
@@ -686,6 +689,8 @@ class AsyncDriver(DriverBase):
 
             async def on_disconnect(sid, reason):
                 self._on_disconnect_common(sid, reason)
+                if self.suspend_in_disconnect:
+                    await asyncio.sleep(self.suspend_in_disconnect)
         else:
             def on_connect(sid, environ):
                 return self._on_connect(sid, environ)
